@@ -9,9 +9,11 @@ def sorted_ms(tokens):
     return [m for m in itertools.product(tokens, repeat=3) if m[0] <= m[1] <= m[2]]
 
 
-def random_instance(rng, ntok=6, max_targets=3, nfs=NFS):
+def random_instance(rng, ntok=6, max_targets=3, nfs=NFS, unsorted=0.0):
     toks = list(range(1, ntok + 1))
     ms = sorted(rng.choice(toks) for _ in range(3))
+    if rng.random() < unsorted:
+        rng.shuffle(ms)
     o = [rng.choice(toks), rng.choice(nfs)]
     n = rng.randrange(1, max_targets + 1)
     targets = []
